@@ -165,7 +165,7 @@ func returnNud(p *parser, t *token) *token {
 }
 
 func callLed(p *parser, t *token, left *token) *token {
-	call := symAtPos(p.Token.Pos, "call")
+	call := symAtPos(t.Pos, "call") // the call is located at its opening parenthesis, wherever its arguments are
 	call.Append(left)
 	arguments := symAtPos(p.Token.Pos, "arguments")
 	call.Append(arguments)
